@@ -591,7 +591,7 @@ class Sampler(object):
 
     def chars(self):
         n = self.r.choice([0, 1, 1, 2, 2, 3])
-        return [self.r.choice(['a', 'b', 'A', '%', '_', '!']) for _ in range(n)]
+        return [self.r.choice(['a', 'b', 'A', '%', '_', '!', '\\']) for _ in range(n)]
 
     def int_leaf(self):
         r = self.r
